@@ -19,18 +19,31 @@ CHECK = {
                             "disturb_stray_next", "disturb_stale_cast", "disturb_setend_only",
                             "disturb_setorigin_only",
                             "grid_change_set_mapping", "grid_change_reassign_object",
-                            "same_origin_after_grid_change"],
-    "required_oracles": ["history.equals_fresh_caster", "alias.equals_cast_of_copied_values", "accessors", "length.l1_plus_1", "start.cell_of_origin",
+                            "same_origin_after_grid_change",
+                            "disturb_caster_copied_or_moved", "disturb_same_grid_set_again",
+                            "disturb_mutator_repeated_2p8_plus_k", "disturb_mutator_repeated_2p16_plus_k",
+                            "value_copy_construct", "value_copy_assign", "value_move_construct", "value_move_assign",
+                            "value_self_assign", "value_copy_used_source_kept",
+                            "value_op_between_setend_and_traversal", "interference_between_setend_and_traversal",
+                            "interrupted_in_the_middle_of_next_loop", "interference_after_cast",
+                            "arguments_as_temporaries", "same_object_for_both_arguments",
+                            "grid_beyond_1e5_cells_from_frame_origin", "grid_default_constructed_then_assigned",
+                            "point_with_zero_or_denormal_coordinate"],
+    "required_oracles": ["history.equals_fresh_caster", "result.kept_rays_unchanged", "alias.equals_cast_of_copied_values", "accessors", "length.l1_plus_1", "start.cell_of_origin",
                          "start.contains_origin_cells", "in_bounds", "steps.face_adjacent",
                          "segment.cell_gap_cells", "end.closed_extent_cells", "end.own_cell"],
-    "required_counters": ["casts", "casts_with_aliased_arguments", "casts_right_after_grid_change", "history_compared_on_reused_caster", "cells_checked_against_segment",
+    "required_counters": ["casts", "value_semantics_steps", "interference_steps", "long_repetitions", "casts_with_aliased_arguments", "casts_right_after_grid_change", "history_compared_on_reused_caster", "cells_checked_against_segment",
                           "float_rays_segment_checked"],
     "rule": "case = one grid (float/double x 2D/3D drawn per case; resolution from {0.1, 0.125, 0.01, 1, 0.5, 0.25, "
             "0.05, 0.2, 1/16, 1/64} or log-uniform in [0.01,1]; 1..2000 cells per axis; range constructor or interval "
             "constructor with per-axis bounds that contain the frame origin, start/end at it, are multiples of the "
-            "resolution, or are offset up to |bound| = 1000) plus a sequence of 3..20 (quick) / 3..30 (thorough) casts on "
+            "resolution, are offset up to |bound| = 1000, or (6 % of the interval axes) lie far from the frame origin with |bound| "
+            "log-spaced from 1e3 up to 1e6 cells (float) / 1e13 cells (double) - the unchanged mapping stays consistent "
+            "up to about 8e6 / 1e15 cells, where one ulp of a coordinate reaches a cell; 20 % of the mappings are "
+            "default-constructed and receive their grid by assignment) plus a sequence of 3..20 (quick) / 3..30 (thorough) casts on "
             "ONE caster; per cast the points are drawn per axis from {uniform, cell centre, cell border and its "
-            "nextafter neighbours, extent bound, k*res and (k+1/2)*res, 1e-7..1e-2 cell from a centre/border} and the ray "
+            "nextafter neighbours, extent bound, k*res and (k+1/2)*res, 1e-7..1e-2 cell from a centre/border, special values 0 / -0 / +-denorm_min / +-smallest normal / +-1 / an "
+            "integer (clamped into the extent)}, 4 % of the points with all components equal, and the ray "
             "from {generic, coincident, same cell, axis aligned, one zero component, exact diagonal from a "
             "centre/border (corner ties on dyadic resolutions), all-but-one component tiny, extent corner to corner, "
             "reverse of the previous ray, end on borders/corners}; the cast goes through one of cast(o,e) / "
@@ -43,7 +56,15 @@ CHECK = {
             "only}; with probability 0.12 between two casts the grid seen by the caster changes (setGridIndexMapping "
             "to a second mapping, or a new mapping assigned to the pointed-to object: same bounds with another "
             "resolution, perturbed bounds, or an unrelated grid) and the next cast specifies its origin, 65 % of the "
-            "time the bit-identical origin of the previous cast (clamped into the new extent); non-trivial = not (double 2D range-constructor grid with only generic rays and no disturbance), "
+            "time the bit-identical origin of the previous cast (clamped into the new extent); also between casts, or between setEndPoint and the traversal, or "
+            "in the middle of a next() loop: the caster is copy-constructed / copy-assigned over a used caster / "
+            "move-constructed / move-assigned (source then overwritten with another ray and destroyed), self-assigned, or "
+            "copied with the copy used for other rays while the source goes on; sibling casters on the same and on the "
+            "other grid, stream formatting and mapping queries run in between; the same grid pointer is set again; "
+            "30 % of the regular calls pass temporaries or std::move'd points, coincident cast(o,e) passes one object "
+            "twice; 0.5 % / 0.1 % of the casts are preceded by 2^8+k / 2^16+k repetitions (k in 0..3) of next(), "
+            "setEndPoint, setOriginPoint or a one-cell cast; returned rays are bound as returned and re-hashed at the end "
+            "of the case, getter references are bound after the cast and read after other objects were used; non-trivial = not (double 2D range-constructor grid with only generic rays and no disturbance), "
             "i.e. outside what the unit tests cast",
     "level_text": "exploration: the real ray caster is executed on 2e4 (quick) / 8e5 (thorough) generated grids with "
                   "~12 / ~17 casts each on one reused caster; every returned cell sequence is checked exactly (first cell, "
@@ -67,7 +88,12 @@ CHECK = {
                     "after the grid seen by the caster changed, the first cast specifies its origin (cast(o,e) or "
                     "setOriginPoint first); cast(e) / setEndPoint relying on an origin given under the previous grid are "
                     "not exercised",
-                    "points are drawn inside the closed interval given to the grid constructor, |coordinates| <= 1000",
+                    "grids farther from the frame origin than 1e6 (float) / 1e13 (double) cells are not generated: beyond "
+                    "~8e6 / ~1e15 cells one ulp of a coordinate is a cell or more and GridIndexMapping itself returns indexes "
+                    "outside its cell count (its validity is property C13's subject), which the caster then uses",
+                    "self move-assignment of a caster and use of a moved-from caster without re-specifying origin and end "
+                    "are not exercised (unspecified for any C++ value type)",
+                    "points are drawn inside the closed interval given to the grid constructor",
                     "g++ 12 ASan+UBSan runtime; asserts live (no -DNDEBUG)"],
 }
 
